@@ -377,9 +377,99 @@ def check_histories(res: JobResult, tier, first):
         res.samples.append({"history": ["cstruct(endian='<')", "parse(HS)", "endian=>", "parse(HS)"], "ops": [o[0] for o in ops]})
 
 
+def check_forms(res: JobResult, endian):
+    """Every path that decodes/encodes the same scalar - T, T[n], T[] (terminated), a structure field, a field of each array form - applies
+    the same encoding: element-wise equal to the scalar codec (the model), and dumping is the inverse."""
+    from dissect.cstruct import cstruct
+
+    cs = cstruct(endian=endian)
+    e = "<" if endian == "<" else ">"
+    cfg = Cfg(endian=e)
+    byteorder = bo(endian)
+    enc16 = "utf-16-le" if endian == "<" else "utf-16-be"
+    fams = []
+    for canon, t in INTS.items():
+        n = t.size * 8
+        vals = sorted({1, (1 << n) - 1, 1 << (n - 1), (1 << (n - 1)) - 1, int.from_bytes(bytes(range(0x81, 0x81 + t.size)), "big"), 0xFE << (n - 8), 0x80 | (1 << (n - 8)) if n > 8 else 0x80})
+        fams.append((canon, t, [v.to_bytes(t.size, "big") for v in vals if v and v < (1 << n)]))
+    for name, t in FLOATS.items():
+        pk = {2: "e", 4: "f", 8: "d"}[t.size]
+        fams.append((name, t, [pystruct.pack(">" + pk, x) for x in (1.0, -2.5, 0.1 if t.size > 2 else 0.5, 65504.0)]))
+    fams.append(("char", CHAR, [b"A", b"\xff", b"\x80", b"\x01"]))
+    text = "U\u20ac\u00e9\ud7ff\ue000\U0001F600\U00010000\U0010FFFF"
+    for canon, t, elems in fams:
+        T = cs.resolve(canon)
+        sz = len(elems[0])
+        for k in (1, 2, len(elems)):
+            for rot in range(len(elems) if k < len(elems) else 1):
+                chosen = [elems[(rot + i) % len(elems)] for i in range(k)]
+                data = b"".join(chosen)
+                if any(c == bytes(sz) for c in chosen):
+                    continue
+                exp = [decode(t, c, 0, cfg)[0] for c in chosen]
+                res.evaluations += 1
+                res.states += 1
+                res.transitions += 6
+                res.nontrivial += 1
+                case = {"input": data.hex(), "count": k}
+                try:
+                    scal = [impl.norm(T(c)) for c in chosen]
+                    fixed = impl.norm(T[k](io.BytesIO(data + b"\xee")))
+                    st0 = io.BytesIO(data + bytes(sz) + b"\xee")
+                    term = impl.norm(T[None](st0))
+                    tell0 = st0.tell()
+                    if isinstance(t, type(CHAR)):
+                        exp_arr = b"".join(exp)
+                    else:
+                        exp_arr = exp
+                    if not same(scal, exp):
+                        viol(res, "forms:scalar", canon, endian, f"{data.hex()} element-wise decodes to {scal}, standard encoding gives {exp}", **case)
+                        continue
+                    if not same(fixed, exp_arr):
+                        viol(res, "forms:array", canon, endian, f"{canon}[{k}] decodes {data.hex()} to {fixed}, the scalar codec gives {exp_arr}", **case)
+                        continue
+                    if not same(term, exp_arr) or tell0 != len(data) + sz:
+                        viol(res, "forms:terminated-array", canon, endian, f"{canon}[] decodes {data.hex()}+terminator to {term} (consumed {tell0}), the scalar codec gives {exp_arr} ({len(data) + sz})", **case)
+                        continue
+                    if "nan" in repr(exp):
+                        continue
+                    d1 = T[k].dumps(fixed if not isinstance(exp_arr, bytes) else exp_arr)
+                    d2 = T[None].dumps(term if not isinstance(exp_arr, bytes) else exp_arr)
+                    if d1 != data or d2 != data + bytes(sz):
+                        viol(res, "forms:encode", canon, endian, f"{exp_arr} encodes to {d1.hex()} ([{k}]) / {d2.hex()} ([]), expected {data.hex()} (+ terminator)", **case)
+                except Exception as ex:  # noqa: BLE001
+                    viol(res, "forms:raises", canon, endian, f"{data.hex()}: {impl.exc_sig(ex)} {ex!r}", **case)
+    # wchar: the three forms decode UTF-16 text of the current byte order, incl. characters outside the BMP (surrogate pairs)
+    W = cs.resolve("wchar")
+    for lo in range(len(text)):
+        for hi in range(lo + 1, len(text) + 1):
+            sub = text[lo:hi]
+            data = sub.encode(enc16)
+            units = len(data) // 2
+            res.evaluations += 1
+            res.states += 1
+            res.transitions += 4
+            res.nontrivial += 1
+            case = {"input": data.hex(), "count": units}
+            try:
+                fixed = str(W[units](io.BytesIO(data + b"\xee")))
+                st0 = io.BytesIO(data + b"\x00\x00\xee")
+                term = str(W[None](st0))
+                if fixed != sub:
+                    viol(res, "forms:wchar-array", "wchar", endian, f"wchar[{units}] decodes {data.hex()} to {fixed!r}, UTF-16 gives {sub!r}", **case)
+                elif term != sub or st0.tell() != len(data) + 2:
+                    viol(res, "forms:wchar-terminated", "wchar", endian, f"wchar[] decodes {data.hex()}+0000 to {term!r} (consumed {st0.tell()}), UTF-16 gives {sub!r}", **case)
+                elif W[units].dumps(sub) != data or W[None].dumps(sub) != data + b"\x00\x00":
+                    viol(res, "forms:wchar-encode", "wchar", endian, f"{sub!r} encodes to {W[units].dumps(sub).hex()} / {W[None].dumps(sub).hex()}, expected {data.hex()}", **case)
+            except Exception as ex:  # noqa: BLE001
+                viol(res, "forms:raises", "wchar", endian, f"{data.hex()} ({sub!r}): {impl.exc_sig(ex)} {ex!r}", **case)
+    res.samples.append({"forms": "T, T[k], T[] for every int/float/char type and wchar text incl. surrogate pairs", "endian": endian})
+
+
 def jobs(tier):
     out = []
     for e in ENDIANS:
+        out.append(("forms", e))
         for grp in ("ints", "floats", "chars", "leb"):
             out.append((grp, e))
     for first in range(len(history_ops())):
@@ -392,7 +482,7 @@ def run(job) -> JobResult:
     if job[0] == "histories":
         check_histories(res, job[1], job[2])
     else:
-        {"ints": check_ints, "floats": check_floats, "chars": check_chars, "leb": check_leb}[job[0]](res, job[1])
+        {"ints": check_ints, "floats": check_floats, "chars": check_chars, "leb": check_leb, "forms": check_forms}[job[0]](res, job[1])
     return res
 
 
